@@ -24,18 +24,26 @@ def prepare(d):
     os.makedirs(os.path.join(d, "dir"))
     open(os.path.join(d, "ok.txt"), "w").write("hello\nworld\n")
     big = pcapfmt.simple_tcp_frame(b"z" * 9000)
-    open(os.path.join(d, "ok.pcap"), "wb").write(pcapfmt.pcap_file([pcapfmt.simple_tcp_frame(), big]))
+    mid = pcapfmt.simple_tcp_frame(b"m" * 3000)
+    open(os.path.join(d, "ok.pcap"), "wb").write(pcapfmt.pcap_file([pcapfmt.simple_tcp_frame(), big, mid]))
+    import struct
+    bad = struct.pack("<IIII", 1, 2, 70000, 70000) + b"\x55" * 64          # caplen beyond the snap length (65535)
+    open(os.path.join(d, "badrec.pcap"), "wb").write(pcapfmt.global_header() + bad)
+    open(os.path.join(d, "damaged.pcap"), "wb").write(pcapfmt.global_header() + pcapfmt.record(pcapfmt.simple_tcp_frame()) + bad +
+                                                       pcapfmt.record(pcapfmt.simple_tcp_frame(b"behind")))
     open(os.path.join(d, "garbage.pcap"), "wb").write(b"this is not a pcap file at all, not even close......")
     open(os.path.join(d, "short.pcap"), "wb").write(pcapfmt.global_header()[:10])
     open(os.path.join(d, "empty.pcap"), "wb").write(b"")
 
 
 PRELUDE = ('let BIG = "0123456789" * 1000;\n'
-           'let PK = pcap_open("$D/ok.pcap"); let SMALLPKT = pcap_read_next(PK); let BIGPKT = pcap_read_next(PK);\n'
+           'let PK = pcap_open("$D/ok.pcap"); let SMALLPKT = pcap_read_next(PK); let BIGPKT = pcap_read_next(PK); let MIDPKT = pcap_read_next(PK);\n'
+           'let PDMG = pcap_open("$D/damaged.pcap"); pcap_read_next(PDMG);\n'
            'let PEND = pcap_open("$D/ok.pcap"); pcap_read_all(PEND);\n'
            'let WOK = open("$D/wok.txt", "w"); write(WOK, "abc");\n'
            'let WFULL = open("/dev/full", "w"); write(WFULL, "abc");\n'
-           'fn FLUSHOUT() { write(stdout, "p"); flush(stdout) }\n')
+           'fn FLUSHOUT() { write(stdout, "p"); flush(stdout) }\n'
+           'fn PWOUT(p) { let s = pcap_stream(stdout); if is_error(s) { s } else { pcap_write(s, p) } }\n')
 
 
 def script(ops, d):
@@ -58,6 +66,8 @@ def run(rep, tier, seed):
 
         devfull = open("/dev/full", "w")
 
+        timeouts = [0]
+
         def runcase(c):
             d = os.path.join(base, "r%d" % c["id"])
             os.makedirs(d)
@@ -68,10 +78,12 @@ def run(rep, tier, seed):
             src = script(c["ops"], d)
             try:
                 p = subprocess.run([core.P2SH, "-c", src], input=(b"garbage-not-pcap" * 4 if garbage else good_stdin),
-                                   stdout=devfull, stderr=subprocess.PIPE, timeout=180)
+                                   stdout=devfull, stderr=subprocess.PIPE, timeout=60 if timeouts[0] < 6 else 8)
                 c["err"] = p.stderr.decode("utf8", "replace")
                 c["how"] = "exit" if p.returncode == 0 else ("panic" if p.returncode == 101 else "rc=%d" % p.returncode)
             except subprocess.TimeoutExpired:
+                # (these programs take a fraction of a second; once six of them have hung for a minute the rest get less)
+                timeouts[0] += 1
                 c["err"] = ""
                 c["how"] = "timeout"
             c["src"] = src
@@ -93,6 +105,9 @@ def run(rep, tier, seed):
                 fault = op["fault"]
                 if op["name"].startswith("pcap_stream") and c["streams"] and ((j - 1) != c["streams"][0] or c["garbage"]):
                     fault = True          # stdin was already consumed by the first pcap_stream, or holds garbage
+                fault = "yes" if fault else "no"
+                if fault == "no" and "stdout" in op["name"] and any("stdout-stream" in o["name"] for o in c["ops"][:j - 1]):
+                    fault = "either"      # the stream's buffer still holds what the failed record write left there
                 steps.append({"name": op["name"], "fault": fault, "seen": seen.get(j, "missing")})
             recs.append({"id": c["id"], "steps": steps, "done": "DONE" in c["err"], "how": c["how"],
                          "rterror": "Runtime error" in c["err"] or "panicked" in c["err"]})
@@ -113,7 +128,7 @@ def run(rep, tier, seed):
                 rep.disagree(sig, {"script": c["src"], "stderr": c["err"][:600], "how": c["how"]})
         rep.cov["distinct_nontrivial"] = len(cases)
         rep.cov["fault_operations"] = sum(1 for c in cases for op in c["ops"] if op["fault"])
-        rep.cov["rule"] = ("TLC-enumerated programs (spec/GenFaults.tla) of one or two operations from the 48-entry operation x "
+        rep.cov["rule"] = ("TLC-enumerated programs (spec/GenFaults.tla) of one or two operations from the 56-entry operation x "
                            "target table (thorough: plus every 29th program of three); distinct = distinct programs; non-trivial = "
                            "the program performs at least one I/O operation (all)")
         rep.cov["exhaustive"] = tier == "quick"
